@@ -15,6 +15,7 @@ func checkC03(c *Ctx) {
 		"N2: every WorkerGroupConf option is consumed", "F3: every branch of ParsePanic marks the error with ErrRecoveredPanic",
 		"F4: the user function runs only behind WithRecover in the three worker-group constructs", "F6: each construct wires the cancel function it created into the configuration's abort hook before starting workers",
 		"F7: the default error handler shared by the workers is mutex-wrapped", "F8: the constructs return / attach the configured error resolver", "N4: no abort handler tests for an error its worker can never return",
+		"F9: the group's ErrorHandler is reached only through the classification (no error is recorded unclassified)",
 		"P2/P2c: the output pipe is closed (exhaustion reported, errors resolved) only after the wait group of all workers drained, and that wait does not run under the abort-cancelled context")
 	c.R.NotCov = append(c.R.NotCov, "exactly-once processing under continue mode (see C01 for the structural part)", "the numeric bound 'at most #workers items after the first failure'")
 	ruleE8(c)
@@ -25,6 +26,7 @@ func checkC03(c *Ctx) {
 	// "nothing lost": failures of in-flight items are recorded before the result is resolved only
 	// if the output is closed / the waiter returns after every worker finished (P2 incl. P2c)
 	ruleP2(c, map[string]bool{"fun": true}, 8)
+	ruleF9(c)
 }
 
 func ruleE8(c *Ctx) {
